@@ -577,6 +577,15 @@ fn run_case(line: &str) -> String {
 				Err(e) => { let e: String = e.chars().rev().take(400).collect::<Vec<_>>().into_iter().rev().collect(); format!("(fail {})", esc(&e)) }
 			})
 		}
+		"rtskip" => {
+			// rtskip SEED N : derived structs declared out of schema order with skip_serializing_if fields
+			let seed: u64 = args[0].int()?;
+			let n: usize = args[1].int()?;
+			Ok(match rt_fixed::run_skip(seed, n) {
+				Ok(c) => format!("(ok {c})"),
+				Err(e) => { let e: String = e.chars().take(900).collect(); format!("(fail {})", esc(&e)) }
+			})
+		}
 		"rtkf" => Ok(rt_kf::run()),
 		"cw" => container::cmd_cw(args),
 		"cwh" => container::cmd_cwh(args),
